@@ -59,6 +59,7 @@ TarStmts == {S("image.importTar", t[1], t[2], f, "") : t \in WriteTgts \cup {<<"
 WriteStmts == DeleteStmts \cup PutStmts \cup CopyStmts \cup TarStmts
 GuardStmts == {S(op, r[1], r[2], "", "") : op \in GuardOps, r \in ReadRefs \cup WriteTgts}
 ErrorStmt == S("error", "", "", "", "")
+ErrorStmts == {S(op, "", "", "", "") : op \in ErrorOps}
 \* statements over the loop reference: "@" = <listed repository>:<current tag>, "l:@" = other place, same tag
 LoopStmts == {S(op, "@", "", "", "") : op \in {"manifest.head", "manifest.getList", "manifest.get", "tag.delete", "image.config"}}
              \cup {S("image.copy", "@", "", l, "@") : l \in Locs}
@@ -68,11 +69,11 @@ Bodies == {<<b>> : b \in LoopStmts} \cup {<<g, b>> : g \in LoopGuards \cup LoopS
 ForeachStmts == {S("foreach", l, "", n, "") : l \in Locs \cup {"bad"}, n \in {"1", "2"}}
 Simple == ReadStmts \cup WriteStmts
 \* protected (pcall) variants of everything that can fail
-Full == Simple \cup {P(st) : st \in Simple} \cup GuardStmts \cup {ErrorStmt}
+Full == Simple \cup {P(st) : st \in Simple} \cup GuardStmts \cup ErrorStmts \cup {P(st) : st \in ErrorStmts}
 \* reduced alphabets for the larger configurations
 Core == {st \in Simple : st.l1 \in {"a1", "lay", "$m", "$r", "bad", ""} /\ st.l2 \in {"", "b1", "lay", "good", "missing", "out", "str", "$b", "$c", "C1"}
                          /\ st.t1 # "ix" /\ st.op \notin {"image.manifest", "image.manifestHead", "image.manifestList", "image.copy+dt", "image.copy+fr", "image.copy+pf", "image.copy+ie"}}
-        \cup {ErrorStmt}
+        \cup ErrorStmts
 \* the throttled bindings with their failure paths (before and while holding the slot) and what feeds them
 Throttle == {S("image.config", "a1", "v1", "", ""), S("image.config", "a1", "none", "", ""), S("image.config", "$m", "", "", ""),
              P(S("image.config", "$m", "", "", "")), S("manifest.getList", "a1", "ix", "", ""), S("manifest.head", "a1", "v1", "", ""),
